@@ -371,6 +371,26 @@ def _replay(py, t, r, scratch, twin):
     except Exception as ex:
         nat = {'error': repr(ex)}
     doc['native'] = nat
+    hist = r.get('history') or []
+    if nat.get('ok') is True and hist and not twin:
+        # not reproducible from a fresh process with this input alone: replay the calls the worker made before it on the same objects
+        hf = out + '.hist.json'
+        with open(hf, 'w') as f:
+            json.dump({'args': args, 'history': hist}, f)
+        try:
+            subprocess.run([py, '-m', 'vfw.replay', t['cmd'][3], t['cmd'][4], '@' + hf, out], env=e, cwd=ROOT,
+                           timeout=600, stdout=subprocess.DEVNULL, stderr=subprocess.DEVNULL)
+            with open(out) as f:
+                nat2 = json.load(f)
+        except Exception as ex:
+            nat2 = {'error': repr(ex)}
+        if nat2.get('ok') is False:
+            doc['native'] = nat2
+            doc['history'] = hist
+            doc['note'] = 'history-dependent: reproduces natively only after the %d earlier calls listed in "history" on the same instance' % len(hist)
+            if isinstance(nat2.get('rec'), dict) and nat2['rec'].get('why'):
+                nat2['rec']['why'] = nat2['rec']['why'] + ' [only after earlier calls on the same instance]'
+            return False, doc
     return nat.get('ok'), doc
 
 
@@ -387,7 +407,13 @@ def replay_file(path):
         print(json.dumps(r, indent=1)[:4000])
         return 1 if r.get('status') == 'violated' else 0
     out = tempfile.mktemp(suffix='.json')
-    subprocess.run([py, '-m', 'vfw.replay', doc['module'], doc['func'], json.dumps(doc['args']), out],
+    argspec = json.dumps(doc['args'])
+    if doc.get('history'):
+        hf = out + '.hist.json'
+        with open(hf, 'w') as f:
+            json.dump({'args': doc['args'], 'history': doc['history']}, f)
+        argspec = '@' + hf
+    subprocess.run([py, '-m', 'vfw.replay', doc['module'], doc['func'], argspec, out],
                    env=_child_env(doc.get('params', {}), twin=doc.get('twin', False), native=True), cwd=ROOT)
     with open(out) as f:
         r = json.load(f)
